@@ -163,7 +163,7 @@ def check_ders(case, ctx):
 def _enum_generate(tier):
     cases = []
     for p in range(1, 8):
-        for extra in range(0, 13 if tier == "thorough" else 12):
+        for extra in range(0, 420 if tier == "thorough" else 130):
             for clamped in (True, False):
                 cases.append({"p": p, "n": p + 1 + extra, "clamped": clamped})
     return cases
@@ -272,7 +272,7 @@ SUBCHECKS = [
     SubCheck("ders", lambda tier: _kv_cases(tier, with_order=True), check_ders, quick=400, thorough=2000,
              rule="as span, or derivative order >= 2"),
     SubCheck("generate", None, check_generate, enumerate_cases=_enum_generate,
-             rule="exhaustive over degree 1..7 x count degree+1..degree+12 x clamped/unclamped; non-trivial = has interior knots or unclamped"),
+             rule="exhaustive over degree 1..7 x count degree+1..degree+130 (thorough: +420) x clamped/unclamped; non-trivial = has interior knots or unclamped"),
     SubCheck("normalize_reject", lambda tier: _norm_cases(tier), check_normalize_reject, quick=600, thorough=3000,
              rule="non-trivial = as span, or an invalid vector (wrong length / one decreasing pair) offered to check and to an object setter"),
 ]
